@@ -123,10 +123,14 @@ func (a *Automaton) Step(s Sym) string {
 		top := a.Chain[i-1]
 		if Admits(top.Kind, s.Kind) {
 			if top.Kind == "URL" && IsMethodKind(s.Kind) && s.HasPath {
-				if top.Explicit {
-					return IncorrectCtxPath
+				// a new root leaves every open context behind, which an explicit context (the URL itself, or a MACRO
+				// around it) does not allow: it is closed by its parenthesis only
+				for _, c := range a.Chain[:i] {
+					if c.Explicit {
+						return IncorrectCtxPath
+					}
 				}
-				a.push(s, -1, 0) // new root; every open context is left behind
+				a.push(s, -1, 0) // new root
 				return OK
 			}
 			a.push(s, top.Node, i)
